@@ -2757,7 +2757,52 @@ func c17Selfplay(c *ctx) {
 		fmt.Fprintf(os.Stderr, "selfplay.test: %d responses for %d requests\n", len(resp), len(reqs))
 		os.Exit(3)
 	}
-	decodeLog := func(h string) (lines []string, trans []string) {
+	// the clocks on the wire: before a side's n-th move of the game its clock is the game time, less what its calls took, plus n-1
+	// increments - so in whole ms at most (GameTime + moves so far by that side * Increment), and here (fast engines, hour-long
+	// clocks) not more than a minute less (class selfplay-clock-wrong)
+	clockOracle := func(s *c17SP, inp string, raw []string) bool {
+		if s.gametime == 0 || s.gametime < 600000000000 {
+			return true
+		}
+		g, ply := -1, 0
+		for _, l := range raw {
+			w := strings.Fields(l)
+			switch {
+			case len(w) > 0 && w[0] == "teinewgame":
+				g++
+			case len(w) == 5 && w[0] == "position":
+				turn, _ := strconv.Atoi(w[3])
+				mvn, _ := strconv.Atoi(w[4])
+				ply = 2*(mvn-1) + turn - 1
+			case len(w) > 0 && w[0] == "go" && g >= 0 && g < len(s.openings):
+				p0 := s.openings[g].ply
+				n := [2]int64{} // moves made since the opening by white, black
+				for q := p0; q < ply; q++ {
+					n[q%2]++
+				}
+				for i := 1; i+1 < len(w); i += 2 {
+					side := -1
+					if w[i] == "wtime" {
+						side = 0
+					} else if w[i] == "btime" {
+						side = 1
+					}
+					if side < 0 {
+						continue
+					}
+					v, _ := strconv.ParseInt(w[i+1], 10, 64)
+					hi := (s.gametime + n[side]*s.inc) / 1000000
+					if v > hi || v < hi-60000 {
+						c.printf("ORACLE-FAIL selfplay-clock-wrong | %s | game %d ply %d: %q | %s = game time %d ms + %d increments of %d ms less the time used: at most %d\n",
+							inp, g, ply, l, w[i], s.gametime/1000000, n[side], s.inc/1000000, hi)
+						return false
+					}
+				}
+			}
+		}
+		return true
+	}
+	decodeLog := func(h string) (lines []string, trans []string, rawLines []string) {
 		if h == "-" {
 			return
 		}
@@ -2773,6 +2818,7 @@ func c17Selfplay(c *ctx) {
 				t = string(b)
 			}
 			lines = append(lines, hx(c17MaskGo(t)))
+			rawLines = append(rawLines, t)
 			trans = append(trans, w[1]+":"+w[2])
 		}
 		return
@@ -2866,8 +2912,11 @@ func c17Selfplay(c *ctx) {
 		if bad {
 			continue
 		}
-		l1, _ := decodeLog(f[4])
-		l2, t2 := decodeLog(f[5])
+		l1, _, raw1 := decodeLog(f[4])
+		l2, t2, raw2 := decodeLog(f[5])
+		if !clockOracle(s, inp, raw1) || !clockOracle(s, inp, raw2) {
+			continue
+		}
 		tr2 := "-"
 		if strings.HasPrefix(s.p2, "rules:") && len(t2) > 0 {
 			tr2 = strings.Join(t2, ",")
